@@ -11,7 +11,7 @@ import sys
 import tempfile
 
 wt, name, checks = sys.argv[1], sys.argv[2], sys.argv[3].split(",")
-pid = wt.lstrip("N")
+pid = wt[-3:]
 src = f"/tmp/wt/{wt}.out"
 patch = os.path.join(src, "patch.diff")
 demo = os.path.join(src, "demo.py")
